@@ -289,13 +289,50 @@ def node_terms(n, out, seen, depth=0):
     node_terms(n.target, out, seen, depth + 1)
 
 
-def span_hook(state):
-    """path hook factory: keeps only paths whose condition (or accepted result) depends on layout variables."""
+def span_hook(state, m=None, fn=None):
+    """path hook factory: keeps only paths whose condition (or accepted result) depends on layout variables: token
+    positions, the source length, and - in branch conditions - the line counter."""
     cache = {}
     state["checked"] = 0
     state["bad"] = []
 
     def factory(eng, ts):
+        line_name = None
+        if m is not None and fn is not None:
+            eng.focus(None)
+            line0 = eng.scalar(eng.field(eng.deref(initial(fn, 1)), m.fidx("Parser", "line"), "usize"))
+            line_name = line0.decl().name()
+            exempt = z3.ULT(line0, bv64(1 << 40)).get_id()     # the harness's own bound on the starting line
+
+        def line_dep(c, lc={}):
+            """does branch condition c mention the starting line?"""
+            if line_name is None or c.get_id() == exempt:
+                return False
+            stack = [c]
+            seen = set()
+            while stack:
+                t = stack.pop()
+                i = t.get_id()
+                if i in seen:
+                    continue
+                seen.add(i)
+                if i in lc:
+                    if lc[i]:
+                        return True
+                    continue
+                if z3.is_const(t) and t.decl().kind() == z3.Z3_OP_UNINTERPRETED and t.decl().name() == line_name:
+                    # a condition that the harness's bound on the starting line already implies (the overflow check
+                    # of `line += 1` in the dev profile) is no dependence
+                    sv = z3.Solver()
+                    sv.set("timeout", 10000)
+                    sv.add(z3.ULT(line0, bv64(1 << 40)), z3.Not(c))
+                    r = sv.check() != z3.unsat
+                    lc[c.get_id()] = r
+                    return r
+                stack.extend(t.children())
+            lc[c.get_id()] = False
+            return False
+
         def hook(p):
             if p.outcome not in ("return", "panic"):
                 return p.outcome in ("cut", "unsupported")
@@ -303,6 +340,8 @@ def span_hook(state):
             dep = set()
             for c in p.pc:
                 dep |= layout_support(c, cache)
+                if line_dep(c):
+                    dep.add("line")
             where = "branch"
             if not dep and p.outcome == "return" and p.ret is not None:
                 ok = p.ret.variants.get("Ok") if p.ret.variants else None
@@ -326,7 +365,8 @@ def _span_check(O, N, part=None, parts=1, fixed=()):
     m0 = O.mir
     fc = C09.classes(m0, parts)[part] if part is not None and N > 0 else None
     stt = {}
-    m, eng, ts, paths = C09.explore_block(O, N, None, fc, 2, fixed=fixed, keep_outcomes=C09.only_bad, path_hook=span_hook(stt))
+    m, eng, ts, paths = C09.explore_block(O, N, None, fc, 2, fixed=fixed, keep_outcomes=C09.only_bad,
+                                          path_hook=span_hook(stt, m0, O.find("::parse_stmt_block")))
     if not eng.outcomes.get("return"):
         O.inconclusive("vacuous: the parser never returns in this class")
     for p in paths:
@@ -478,3 +518,56 @@ def lexer_translation(O):
                 mode, data.decode()[:60], str(got)[:200], str(want)[:200]))
     O.rec["witnesses"].append({"class": "texts lexed both ways", "paths": len(items), "model": {"mismatches": str(bad)}})
     O.note("%d texts x 2 lexers compared token by token (kind, start, end) with the natively compiled src/lexer/token.rs" % len(texts))
+
+
+# ------------------------------------------------------------------ parser: blank lines
+
+def _reg_blank_line(end_token):
+    @obligation("C20/parser-blank-line[%s]" % (end_token or "top"), profiles=("dev",),
+                desc="parse_stmt_block (%s), one turn of its statement loop when the next token is a line break: exactly that "
+                     "token is consumed, the line counter goes up by one, no statement is added, nothing else is called or "
+                     "changed, and the loop continues" % ("inside an `end %s` block" % end_token if end_token else "top level"))
+    def _ob(O, end_token=end_token):
+        R = rep("inserted")
+        m, eng, ts, paths = C09.explore_block(O, 1, end_token, None, 2, fixed=("Eol",), cut_outer=True, from_header=True)
+        fn = O.find("::parse_stmt_block")
+        me0 = eng.deref(initial(fn, 1))
+        line0 = eng.scalar(eng.field(me0, m.fidx("Parser", "line"), "usize"))
+        blk = int(fn.debug.get("block", "_3").lstrip("_")) if hasattr(fn, "debug") else 3
+        from ..models import vec_slice
+        eng.focus(None)
+        blen0 = eng.length(vec_slice(eng, Node("loc%d" % blk, ty=fn.locals.get(blk))))
+        n = 0
+        for p in paths:
+            eng.focus(p)
+            if p.outcome != "cut" or not (p.detail or "").startswith("loop:"):
+                R.fail(O, p, "a line break at the start of a statement ends the block parser: %s %s" % (p.outcome, p.detail))
+                continue
+            n += 1
+            if p.state.extra.get("consumed") != [0]:
+                R.fail(O, p, "a blank line consumes tokens %s" % p.state.extra.get("consumed"))
+                continue
+            if p.trace:
+                R.fail(O, p, "a blank line causes calls: %s" % [e.norm for e in p.trace][:4])
+                continue
+            fr = p.state.frames[0]
+            b = fr.locals.get(blk)
+            me = eng.deref(p.args.fields[1])
+            line1 = eng.scalar(eng.field(me, m.fidx("Parser", "line"), "usize"))
+            from ..models import vec_slice
+            blen = eng.length(vec_slice(eng, b)) if b is not None else None
+            if blen is None:
+                R.fail(O, p, "the statement list is not where it is expected")
+                continue
+            R.prove(O, p, z3.And(blen == blen0, line1 == line0 + bv64(1)),
+                    "a blank line adds no statement and counts as one line")
+        if n == 0:
+            O.inconclusive("vacuous: no turn of the statement loop on a line break")
+        else:
+            O.rec["witnesses"].append({"class": "blank-line turn", "paths": n, "model": {}})
+    return _ob
+
+
+_reg_blank_line(None)
+_reg_blank_line("Loop")
+_reg_blank_line("While")
